@@ -457,6 +457,7 @@ def gen_ctx(ctx):
             for disp in ('sync', 'async'):
                 for ann in ('int', 'str'):
                     yield dict(part='ctx', validator=v, first=first, disp=disp, ann=ann)
+                    yield dict(part='ctx', validator=v, first=first, disp=disp, ann=ann, nocontext=True)
 
 
 def run_ctx(case, rec):
@@ -487,7 +488,9 @@ def run_ctx(case, rec):
     d = pjrpc.server.AsyncDispatcher() if is_async else pjrpc.server.Dispatcher()
     d.add(fn, name='f', context='ctx')
     d.add(fn, name='g')
-    ctxobj = CTXOBJ()
+    # 'nocontext': the request is dispatched WITHOUT a context (dispatch(text), the flask integration): the designated parameter is
+    # None then - still not a client parameter
+    ctxobj = None if case.get('nocontext') else CTXOBJ()
     typed = v != 'base'
     # (target, params) -> expected: ('run', what the body sees) | 'refuse'
     table = {
@@ -552,6 +555,8 @@ def gen_multi(ctx):
                 yield dict(part='samename', disp=disp, first=first, coerce=coerce)
         for v in ('default', 'base', 'js', 'pd'):
             yield dict(part='variadic', disp=disp, validator=v)
+        for order in (['v1', 'v2'], ['v2', 'v1']):
+            yield dict(part='twoschemas', disp=disp, order=order)
         for v in ('base', 'js', 'pd'):
             for order in itertools.permutations(['who', 'ping', 'version']):
                 yield dict(part='noargs', disp=disp, validator=v, order=list(order) + list(order))
@@ -777,6 +782,36 @@ def run_variadic(case, rec):
     return tuple(obs)
 
 
+def run_twoschemas(case, rec):
+    """ONE function registered under two names, decorated for each with its own schema (a versioned API sharing the
+    implementation): each registered method keeps the schema it was registered with"""
+    is_async = case['disp'] == 'async'
+    log = []
+    ns = {'_log': log}
+    exec(('async ' if is_async else '') + 'def impl(a):\n    _log.append(a)\n    return a\n', ns)
+    impl = ns['impl']
+    v = vjs.JsonSchemaValidator()
+    d = pjrpc.server.AsyncDispatcher() if is_async else pjrpc.server.Dispatcher()
+    sch = {'v1': {'type': 'object', 'properties': {'a': {'type': 'integer'}}}, 'v2': {'type': 'object', 'properties': {'a': {'type': 'string'}}}}
+    for name in case['order']:
+        d.add(v.validate(schema=sch[name])(impl), name=name)
+    obs = []
+    for name in ('v1', 'v2', 'v1'):
+        for val in (5, 'five'):
+            good = (name == 'v1') == isinstance(val, int)
+            del log[:]
+            resp = json.loads(dispatch(d, is_async, json.dumps({'jsonrpc': '2.0', 'id': 1, 'method': name, 'params': [val]}))[0])
+            rec.transitions += 1
+            code = resp.get('error', {}).get('code') if 'error' in resp else None
+            ok = (code is None and log == [val]) if good else (code == -32602 and not log)
+            rec.outcomes['twoschemas:%s' % ('ok' if ok else 'BAD')] += 1
+            if not ok:
+                rec.violation('C14:one function registered twice with two schemas:%s' % ('conforming call refused' if good else 'non-conforming call executed'),
+                              dict(case, method=name, value=val), expected='executed' if good else -32602, observed=dict(response=resp, saw=list(log)))
+            obs.append(ok)
+    return tuple(obs)
+
+
 def run_viewpred(case, rec):
     """a class based view method under a validator whose exclusion predicate also matches the (unannotated) `self`"""
     import inspect
@@ -837,7 +872,7 @@ def gen_cases(ctx):
 def run_case(case, rec):
     from mc.core import Recorder
     r = Recorder()
-    obs = {'js': run_js, 'ctx': run_ctx, 'pd': run_pd, 'multi': run_multi, 'viewpred': run_viewpred, 'samename': run_samename, 'eqsig': run_eqsig, 'noargs': run_noargs, 'variadic': run_variadic}[case['part']](case, r)
+    obs = {'js': run_js, 'ctx': run_ctx, 'pd': run_pd, 'multi': run_multi, 'viewpred': run_viewpred, 'samename': run_samename, 'eqsig': run_eqsig, 'noargs': run_noargs, 'variadic': run_variadic, 'twoschemas': run_twoschemas}[case['part']](case, r)
     r.states += 1
     r.traces += 1
     r.nontrivial_n += 1
